@@ -229,10 +229,23 @@ pub fn slice(value: Value, start: Value, stop: Value, step: Value) -> Result<Val
             }
 
             if step > 0 {
-                let len = obj.enumerator_len().unwrap_or_default();
-                let (start, len) = get_offset_and_len(start, stop, || len);
+                let needs_len = start.map_or(false, |x| x < 0) || stop.map_or(false, |x| x < 0);
                 Ok(Value::make_object_iterable(obj, move |obj| {
-                    if let Some(iter) = obj.try_iter() {
+                    if let Some(mut iter) = obj.try_iter() {
+                        // an iterable of unknown length is consumed to learn its
+                        // length when a bound counts from the end, and is
+                        // otherwise treated as unbounded.
+                        let len = match obj.enumerator_len() {
+                            Some(len) => len,
+                            None if needs_len => {
+                                let values = iter.collect::<Vec<_>>();
+                                let len = values.len();
+                                iter = Box::new(values.into_iter());
+                                len
+                            }
+                            None => usize::MAX,
+                        };
+                        let (start, len) = get_offset_and_len(start, stop, || len);
                         Box::new(iter.skip(start).take(len).step_by(step as usize))
                     } else {
                         Box::new(None.into_iter())
